@@ -352,7 +352,7 @@ func (rpc *RPC) split(limit int) iter.Seq[RPC] {
 			for _, msg := range rpc.Publish {
 				// We know the message field number is <15 so this is safe.
 				incrementalSize := pbFieldNumberLT15Size + sizeOfEmbeddedMsg(msg.Size())
-				if nextRPCSize+incrementalSize > limit {
+				if nextRPCSize+incrementalSize > limit && messagesInNextRPC > 0 {
 					// The message doesn't fit. Let's set the messages that did fit
 					// into this RPC, yield it, then make a new one
 					nextRPC.Publish = messageSlice[:messagesInNextRPC]
@@ -398,7 +398,7 @@ func (rpc *RPC) split(limit int) iter.Seq[RPC] {
 		for _, sub := range rpc.Subscriptions {
 			if nextRPC.Subscriptions = append(nextRPC.Subscriptions, sub); nextRPC.Size() > limit {
 				nextRPC.Subscriptions = nextRPC.Subscriptions[:len(nextRPC.Subscriptions)-1]
-				if !yield(nextRPC) {
+				if nextRPC.Size() > 0 && !yield(nextRPC) {
 					return
 				}
 
@@ -413,7 +413,7 @@ func (rpc *RPC) split(limit int) iter.Seq[RPC] {
 				nextRPC.Control = &pb.ControlMessage{}
 				if nextRPC.Size() > limit {
 					nextRPC.Control = nil
-					if !yield(nextRPC) {
+					if nextRPC.Size() > 0 && !yield(nextRPC) {
 						return
 					}
 					nextRPC = RPC{RPC: pb.RPC{Control: &pb.ControlMessage{}}, from: rpc.from}
